@@ -116,7 +116,7 @@ static void option_shapes(long idx, Rng& r) {
 
 // ---- variable-length header elements that are not options (record lists, extension objects, padding) ---------
 static void element_shapes(long idx, Rng& r) {
-    u32 which = (u32)(idx % 6); std::unique_ptr<PDU> root; std::string d;
+    u32 which = (u32)(idx % 7); std::unique_ptr<PDU> root; std::string d;
     auto ip6 = [&]() { Bytes b = r.bytes(16); return IPv6Address(b.data()); };
     try {
         switch (which) {
@@ -144,6 +144,15 @@ static void element_shapes(long idx, Rng& r) {
             case 4: { IPSecAH* ah = new IPSecAH(); Bytes icv = r.bytes(4 * r.below(8) + (r.chance(1, 4) ? r.below(4) : 0)); ah->icv(icv); d = "IPSecAH icv=" + std::to_string(icv.size());
                       u32 inner = r.below(40); if (inner) { Bytes b = r.bytes(inner); ah->inner_pdu(new RawPDU(b.data(), (u32)b.size())); }
                       root.reset(new EthernetII()); root->inner_pdu(new IP("1.2.3.4", "4.3.2.1")); root->inner_pdu()->inner_pdu(ah); break; }
+            case 5: { ICMPv6* c = new ICMPv6(ICMPv6::MGM_QUERY); d = "ICMPv6 MLD query:";      // MLDv1/MLDv2 switch and the source list, in any order
+                      for (u32 k = 1 + r.below(5); k--;) switch (r.below(5)) {
+                          case 0: { ICMPv6::sources_list l; for (u32 i = r.below(5); i--;) l.push_back(ip6()); c->sources(l); d += " sources(" + std::to_string(l.size()) + ")"; break; }
+                          case 1: { bool v = r.chance(1, 2); c->use_mldv2(v); d += v ? " use_mldv2(1)" : " use_mldv2(0)"; break; }
+                          case 2: c->multicast_addr(ip6()); d += " multicast_addr"; break;
+                          case 3: c->qrv((u8)r.below(8)); c->qqic(r.byte()); c->supress(r.chance(1, 2)); d += " qrv/qqic/s"; break;
+                          default: c->maximum_response_code((u16)r.next()); d += " mrc"; }
+                      if (r.chance(1, 2)) { Bytes b = r.bytes(1 + r.below(30)); c->inner_pdu(new RawPDU(b.data(), (u32)b.size())); d += " +payload"; }
+                      root.reset(new EthernetII(EthernetII() / IPv6("::1", "::2"))); root->inner_pdu()->inner_pdu(c); break; }
             default: { IPv6* v6 = new IPv6("::1", "::2"); u32 n = 1 + r.below(4); d = "IPv6 extension headers:";
                       static const IPv6::ExtensionHeader hs[] = {IPv6::HOP_BY_HOP, IPv6::DESTINATION_ROUTING_OPTIONS, IPv6::ROUTING, IPv6::FRAGMENT, IPv6::MOBILITY};
                       for (u32 i = 0; i < n; ++i) { Bytes b = r.bytes(r.chance(1, 2) ? 6 + 8 * r.below(4) : r.below(30)); v6->add_header(IPv6::ext_header(hs[r.below(5)], b.begin(), b.end())); d += " len=" + std::to_string(b.size()); }
@@ -152,7 +161,7 @@ static void element_shapes(long idx, Rng& r) {
         }
     } catch (const exception_base&) { cnt("element_shape_refused_by_setter:" + std::to_string(which)); return; }
     describe_case("element-shape " + d);
-    static const char* nm[] = {"ICMPv6.mld2", "ICMP.extensions", "ICMPv6.extensions", "RTP", "IPSecAH", "IPv6.ext_headers"};
+    static const char* nm[] = {"ICMPv6.mld2", "ICMP.extensions", "ICMPv6.extensions", "RTP", "IPSecAH", "ICMPv6.mld_query", "IPv6.ext_headers"};
     cnt(std::string("element_shapes:") + nm[which]);
     Bytes y = check_packet(root.get(), "element-shape " + d);
     if (y.empty()) return;
